@@ -67,6 +67,11 @@ VarSites ==
 VarDoc(t, d, s) == <<"query", "(", "$", "v", ":">> \o t \o d \o <<")", "{">> \o s \o <<"}">>
 VarCases == {[fam |-> "vars", ph |-> "case", lang |-> "exe", form |-> VarDoc(t, d, s), sep |-> "sp", nm |-> 0] : t \in VarTypes, d \in VarDefaults, s \in VarSites}
 
+\* a variable used by an operation that declares none (or only another one)
+UndeclCases ==
+  {[fam |-> "undecl", ph |-> "case", lang |-> "exe", form |-> hd \o <<"{">> \o s \o <<"}">>, sep |-> "sp", nm |-> 0] :
+      s \in VarSites, hd \in { <<>>, <<"query">>, <<"query", "(", "$", "a", ":", "String", ")">>, <<"mutation">> }}
+
 \* ---------------------------------------------------------------- family refl
 \* how an argument is written in each state; "omit" writes nothing
 ArgText(n, st) ==
@@ -146,6 +151,7 @@ PickLang == /\ cs.ph = "fam"
                \/ cs.fam = "indef" /\ cs' \in InDefCases
                \/ cs.fam = "vars" /\ cs' \in VarCases
                \/ cs.fam = "refl" /\ cs' \in ReflCases
+               \/ cs.fam = "undecl" /\ cs' \in UndeclCases
 
 Grow == /\ cs.ph = "grow"
         /\ \/ Len(cs.form) < AllLen /\ \E k \in Core[cs.lang] : cs' = [cs EXCEPT !.form = Append(@, k)]
@@ -176,8 +182,8 @@ AllowOf(dv) ==
 
 Vector ==
   [ fam |-> cs.fam, lang |-> cs.lang, toks |-> cs.form, sep |-> cs.sep,
-    vn |-> IF cs.fam \in {"vars", "refl"} THEN {"v"} ELSE VarNames(cs.form),
-    vd |-> CASE cs.fam = "vars" -> 2 [] cs.fam = "refl" -> 1 [] OTHER -> VdBulk,
+    vn |-> IF cs.fam \in {"vars", "refl", "undecl"} THEN {"v"} ELSE VarNames(cs.form),
+    vd |-> CASE cs.fam = "vars" -> 2 [] cs.fam \in {"refl", "undecl"} -> 1 [] OTHER -> VdBulk,
     cls |-> CASE cs.ph = "grow" -> "raw" [] cs.ph = "mut" -> "mutated" [] OTHER -> "valid",
     exp |-> Expected,
     allow |-> AllowOf(KnownDev) ]
